@@ -119,6 +119,11 @@ impl ClassingSpec {
     }
     /// The class a request of `order` naturally uses under this classing
     pub fn natural_class(&self, order: usize) -> u8 {
+        let c = self.natural_class_raw(order);
+        // custom classings may not configure the class the policy family would use
+        if self.slots(c).is_some() { c } else { self.classes[0].0 }
+    }
+    fn natural_class_raw(&self, order: usize) -> u8 {
         let huge = order >= HUGE_ORDER;
         match self.policy {
             PolicyKind::Simple => huge as u8,
